@@ -62,6 +62,10 @@ def run(ctx: Ctx):
     from .common import id_truthiness
 
     id_truthiness(ctx)
+    from . import c19
+
+    # fixed top / bottom references of an array dimension reach the collator only after the shim rewrote them
+    c19.slot_independence(ctx, "fixed-lists.translated")
 
 
 def _dict_in(fn: ast.FunctionDef, name: Optional[str] = None) -> Optional[ast.Dict]:
